@@ -287,8 +287,12 @@ def _pool():
     return _POOL
 
 
+_SEQ = [0]
+
+
 def _run_session(tag, cfg, scenarios):
-    w = os.path.join(_work(), "sess_" + tag)
+    _SEQ[0] += 1
+    w = os.path.join(_work(), f"sess_{tag}_{_SEQ[0]}")
     shutil.rmtree(w, ignore_errors=True)
     os.makedirs(w)
     outp = os.path.join(w, "out.json")
@@ -454,6 +458,13 @@ def _corpus(ctx):
         if fn.endswith(".json"):
             rec = json.load(open(os.path.join(d, fn)))
             cases += rec.get("cases", [rec] if "kills" in rec else [])
+    for c in cases:   # reference sessions first (one per distinct configuration), then the replays in parallel
+        key = json.dumps(c["cfg"], sort_keys=True)
+        if key not in _SESS:
+            try:
+                _SESS[key] = _run_session("c" + hashlib.sha1(key.encode()).hexdigest()[:8], c["cfg"], [])
+            except Infra:
+                pass
     for case, r in _pool().map(lambda c: (c, oracle(c)), cases):
         ctx.case(dict(corpus=True, **case))
         ctx.stat("corpus")
